@@ -37,6 +37,11 @@ type MockData struct {
 	MockName      string
 	TypeParams    []TypeParamData
 	Methods       []MethodData
+
+	// GenericEnsure is set if the implementation check can not be
+	// written with explicit type arguments: it is then done inside a
+	// generic function, with the type parameters themselves.
+	GenericEnsure bool
 }
 
 // MethodData is the data which represents a method on some interface.
